@@ -17,8 +17,10 @@ def _ciw():
 
 # ------------------------------------------------------------------ continuous scenarios
 
-def gen_cont(rng, stateful=False):
-    """a network with continuous (tie-free) built-in distributions; `stateful` adds Sequential / Cycle objects"""
+def gen_cont(rng, stateful=False, rich=False):
+    """a network with continuous (tie-free) built-in distributions; `stateful` adds Sequential / Cycle objects;
+    `rich` (process histories, C15) adds composite distributions with nested stateful parts, phase-type and
+    numpy-stream distributions, user-defined stateful distributions and process-based routing"""
     N = rng.choice([1, 2, 2, 3])
     K = rng.choice([1, 1, 2])
 
@@ -105,7 +107,41 @@ def gen_cont(rng, stateful=False):
             for n in range(N):
                 if -1 not in sc["cycle"][n]:
                     sc["cycle"][n].append(-1)
+    if rich:
+        def seqd(lo=0.2, hi=2.0):
+            return ["seq", [round(rng.uniform(lo, hi), 3) for _ in range(rng.randint(2, 4))]]
+
+        def nested(scale=1.0):
+            t = rng.choice(["sum", "mix", "custom", "erlang", "hyperexp", "sum"])
+            if t == "sum":
+                return ["sum", seqd(0.1, 1.0), cdist(scale * 2.0)]
+            if t == "mix":
+                return ["mix", [seqd(), cdist(scale)], [0.5, 0.5]]
+            if t == "custom":
+                return ["custom", [round(rng.uniform(0.2, 2.0), 3) for _ in range(3)], cdist(scale * 3.0)]
+            if t == "erlang":
+                return ["erlang", round(rng.uniform(1.0, 4.0), 3), rng.randint(2, 3)]
+            return ["hyperexp", [round(rng.uniform(0.5, 3.0), 3), round(rng.uniform(0.5, 3.0), 3)], [0.4, 0.6]]
+        for k in range(K):
+            for n in range(N):
+                if rng.random() < 0.5:
+                    sc["svc"][k][n] = nested()
+                if sc["arr"][k][n] is not None and rng.random() < 0.3:
+                    sc["arr"][k][n] = nested(1.5)
+                if sc["renege"] and sc["renege"][k][n] is not None and rng.random() < 0.5:
+                    sc["renege"][k][n] = nested(3.0)
+        if rng.random() < 0.3:
+            sc["batch"] = [[rng.choice([["poisson1", 0.8], ["geometric", 0.6], ["seq", [1, 2, 1, 3]]]) if sc["arr"][k][n] else None
+                            for n in range(N)] for k in range(K)]
+        if rng.random() < 0.4:
+            sc.pop("cycle", None)
+            # process-based routing: the route depends on the customer's id (a pure function of the customer)
+            sc["pb"] = [[rng.choice(list(range(1, N + 1))) for _ in range(rng.randint(0, 3))] for _ in range(3)]
+        if K == 2 and rng.random() < 0.3 and not sc.get("ccm"):
+            sc["cct"] = [[None, seqd(1.0, 5.0)], [cdist(4.0), None]]
     return sc
+
+
 
 
 def mk_dist(ciw, d):
@@ -131,6 +167,34 @@ def mk_dist(ciw, d):
         return D.Deterministic(d[1])
     if t == "pmf":
         return D.Pmf(list(d[1]), list(d[2]))
+    if t == "sum":
+        return mk_dist(ciw, d[1]) + mk_dist(ciw, d[2])
+    if t == "mix":
+        return D.MixtureDistribution([mk_dist(ciw, x) for x in d[1]], list(d[2]))
+    if t == "erlang":
+        return D.Erlang(d[1], d[2])
+    if t == "hyperexp":
+        return D.HyperExponential(list(d[1]), list(d[2]))
+    if t == "poisson1":
+        class P1(D.Poisson):
+            def sample(self, t=None, ind=None):
+                return 1 + super().sample(t, ind)
+        return P1(d[1])
+    if t == "geometric":
+        return D.Geometric(d[1])
+    if t == "custom":
+        inner = mk_dist(ciw, d[2])
+
+        class Counting(D.Distribution):
+            def __init__(self, vals, inner):
+                self.vals, self.inner, self.k = list(vals), inner, 0
+
+            def sample(self, t=None, ind=None):
+                self.k += 1
+                if self.k % 3 == 0:
+                    return self.vals[(self.k // 3) % len(self.vals)]
+                return self.inner.sample(t, ind)
+        return Counting(d[1], inner)
     raise ValueError(t)
 
 
@@ -151,7 +215,13 @@ def build_cont(sc):
             servers.append(s)
     kw["number_of_servers"] = servers
     kw["queue_capacities"] = [float("inf") if q == "inf" else q for q in sc["qcap"]]
-    if sc.get("cycle"):
+    if sc.get("pb"):
+        routes = [list(r) for r in sc["pb"]]
+
+        def route_fn(ind, simulation):
+            return list(routes[ind.id_number % len(routes)])
+        kw["routing"] = {names[k]: ciw.routing.ProcessBased(route_fn) for k in range(K)}
+    elif sc.get("cycle"):
         kw["routing"] = {names[k]: ciw.routing.NetworkRouting(routers=[ciw.routing.Cycle(cycle=list(c)) for c in sc["cycle"]])
                          for k in range(K)}
     else:
@@ -166,6 +236,9 @@ def build_cont(sc):
                                         for k in range(K)}
     if sc["ccm"]:
         kw["class_change_matrices"] = [{names[a]: {names[b]: m[a][b] for b in range(K)} for a in range(K)} for m in sc["ccm"]]
+    if sc.get("cct"):
+        kw["class_change_time_distributions"] = {names[a]: {names[b]: mk_dist(ciw, sc["cct"][a][b]) for b in range(K)}
+                                                 for a in range(K)}
     if sc.get("baulk"):
         def bf(n, Q=None, next_ind=None, next_node=None):
             return min(1.0, n / 6.0)
